@@ -40,10 +40,13 @@ PROPS = {
     "C07": sysprop(["C07"], ["mixed", "overload", "adapters", "local", "exit"], 200, 3000, GEN_RULE + "; plus tracing calls issued "
                    "from a thread-local destructor registered before / after fastrace's own thread-locals", release_too=True,
                    extra=[S.verdict_stream_for("teardown", "core", "teardown", 40, 1000, shards=4)]),
-    "C02": sysprop(["C02"], ["mixed", "default", "local", "adapters"], 250, 4000, GEN_RULE),
+    "C02": sysprop(["C02"], ["mixed", "default", "local", "adapters"], 250, 4000, GEN_RULE + "; plus user code that panics inside a tracing call (property closures of every entry point, span / event names whose conversion panics, a panic unwinding through a scope), caught by the caller: the trace still arrives whole, later spans hang under the right parents, the local context is restored, nothing of the panicking closure is recorded",
+                   extra=[S.verdict_stream_for("unwind", "core", "unwind", 40, 1500, shards=4)]),
     "C05": sysprop(["C05"], ["mixed", "default", "cancelable", "local"], 250, 4000, GEN_RULE),
-    "C06": sysprop(["C06"], ["default", "cancelable", "mixed", "local"], 250, 4000, GEN_RULE),
-    "C11": sysprop(["C11"], ["mixed", "local", "adapters"], 250, 4000, GEN_RULE),
+    "C06": sysprop(["C06"], ["default", "cancelable", "mixed", "local"], 250, 4000, GEN_RULE + "; plus user code that panics inside a tracing call (property closures of every entry point, span / event names whose conversion panics, a panic unwinding through a scope), caught by the caller: the trace still arrives whole, later spans hang under the right parents, the local context is restored, nothing of the panicking closure is recorded",
+                   extra=[S.verdict_stream_for("unwind", "core", "unwind", 40, 1500, shards=4)]),
+    "C11": sysprop(["C11"], ["mixed", "local", "adapters"], 250, 4000, GEN_RULE + "; plus user code that panics inside a tracing call (property closures of every entry point, span / event names whose conversion panics, a panic unwinding through a scope), caught by the caller: the trace still arrives whole, later spans hang under the right parents, the local context is restored, nothing of the panicking closure is recorded",
+                   extra=[S.verdict_stream_for("unwind", "core", "unwind", 40, 1500, shards=4)]),
     "C13": sysprop(["C13"], ["adapters", "cancelable", "mixed"], 250, 4000, GEN_RULE + "; plus adapters dropped before completion whose "
                    "wrapped future / stream owns spans of the trace (released before the adapter's span, also with a collector cycle in between)",
                    extra=[S.verdict_stream_for("adrop", "core", "adrop", 40, 1000, shards=4)]),
@@ -87,10 +90,10 @@ PROPS = {
             "trusted_base": ["harness/reporters (generator, loopback UDP capture with end marker)"],
             "assumptions": ["sizes are those of the modelled Thrift encoding, compared byte for byte with the real one in C19"]},
     "C03": sysprop(["C03"], ["cancelable", "adapters", "exit"], 250, 4000, GEN_RULE + "; plus aged scenarios: two threads with 1-41 earlier traces and a collector that has run 0-2100 cycles over their empty rings, then a trace with its root on one thread and a child (local span, event) finished on the other: every span exactly once, by the first cycle after it finished, cancelable in one report call, nothing retained",
-                   extra=[S.verdict_stream_for("aged", "core", "aged", 30, 1200, shards=4)]),
+                   extra=[S.verdict_stream_for("aged", "core", "aged", 30, 1200, shards=4), S.verdict_stream_for("unwind", "core", "unwind", 40, 1500, shards=4)]),
     "C04": sysprop(["C04"], ["cancelable", "default", "overload"], 250, 4000, GEN_RULE),
     "C08": sysprop(["C08"], ["mixed", "exit", "cancelable", "default"], 250, 4000, GEN_RULE + "; plus aged scenarios: two threads with 1-41 earlier traces and a collector that has run 0-2100 cycles over their empty rings, then a trace with its root on one thread and a child (local span, event) finished on the other: every span exactly once, by the first cycle after it finished, cancelable in one report call, nothing retained",
-                   extra=[S.verdict_stream_for("aged", "core", "aged", 30, 1200, shards=4)]),
+                   extra=[S.verdict_stream_for("aged", "core", "aged", 30, 1200, shards=4), S.verdict_stream_for("unwind", "core", "unwind", 40, 1500, shards=4)]),
     "C09": sysprop(["C09"], ["overload", "mixed"], 250, 4000, GEN_RULE),
     "C10": sysprop(["C10", "C10_consts"], ["local", "overload", "adapters"], 250, 4000, GEN_RULE),
 }
